@@ -84,7 +84,16 @@ func main() {
 	explainF := flag.String("explain", "", "print the violations file and re-run")
 	tags := flag.String("tags", "", "build tags")
 	list := flag.Bool("list", false, "list properties with rules")
+	genBase := flag.Bool("gen-baseline", false, "maintenance: rewrite baseline_funcs.json (the functions the rules were validated against) from -repo")
 	flag.Parse()
+	if *genBase {
+		if err := writeBaseline(*repo, *tags); err != nil {
+			fmt.Println(err)
+			os.Exit(2)
+		}
+		fmt.Println("wrote", baselinePath())
+		return
+	}
 	if os.Getenv("FDCHECK_DUMP_KEYS") != "" {
 		dumpKeys = []string{}
 	}
